@@ -159,10 +159,14 @@ def findlabels_pre_310(code, opc):
 NO_LINE_NUMBER = -128
 
 
-def findlinestarts(code, dup_lines=False):
+def findlinestarts(code, dup_lines=False, signed_line_deltas=True):
     """Find the offsets in a byte code which are start of lines in the source.
 
     Generate pairs (offset, lineno) as described in Python/compile.c.
+
+    Line increments in ``co_lnotab`` are signed bytes from Python 3.6 on and
+    unsigned before that; pass ``signed_line_deltas=False`` (or use
+    findlinestarts_unsigned) for the older bytecode.
     """
 
     if hasattr(code, "co_lines"):
@@ -211,7 +215,7 @@ def findlinestarts(code, dup_lines=False):
                         # the bytecode; any line numbers for these have been removed.
                         return
                     pass
-                if line_delta >= 0x80:
+                if signed_line_deltas and line_delta >= 0x80:
                     # line_deltas is an array of 8-bit *signed* integers
                     line_delta -= 0x100
                 lineno += line_delta
@@ -219,6 +223,12 @@ def findlinestarts(code, dup_lines=False):
                 yield offset, lineno
 
     return
+
+
+def findlinestarts_unsigned(code, dup_lines=False):
+    """findlinestarts() for bytecode before Python 3.6, where the line
+    increments of ``co_lnotab`` are unsigned bytes."""
+    return findlinestarts(code, dup_lines, signed_line_deltas=False)
 
 
 def instruction_size(op, opc):
